@@ -36,6 +36,12 @@ MUTANTS = [
      "            node.edge.tail_node = None\n            index = children.index(node)", "remove_child: parent pointer of the removed node kept"),
     ("C03", TM + "_edge.py", "        old_tail_node.edge.length, old_head_node.edge.length = (\n            old_head_node.edge.length,\n            old_tail_node.edge_length,\n        )",
      "        pass", "Edge.invert: lengths not exchanged"),
+    ("C03", TM + "_node.py", "        self.clear_child_nodes()\n        # Go through add to ensure book-keeping", "        # Go through add to ensure book-keeping",
+     "set_child_nodes: the old children are kept"),
+    ("C03", TM + "_node.py", "        node = self.__class__(**kwargs)\n        return self.add_child(node=node)", "        node = self.__class__(**kwargs)\n        node._parent_node = self\n        return node",
+     "new_child: the new node gets a parent but is not listed as a child"),
+    ("C03", TM + "_node.py", "        node = self.__class__(**kwargs)\n        return self.insert_child(index=index, node=node)",
+     "        node = self.__class__(**kwargs)\n        return self.insert_child(index=index + 1, node=node)", "insert_new_child: off by one"),
     ("C04", "dendropy/calculate/treecompare.py", "    false_positives = comparison_bipartitions.difference(ref_bipartitions)",
      "    false_positives = ref_bipartitions.difference(comparison_bipartitions)", "fp computed as fn"),
     ("C05", TC, "                self._split_freqs[split] = float(self.split_counts[split]) / normalization_weight",
@@ -136,6 +142,15 @@ MUTANTS = [
      "            elif token == 'BEGIN':\n                raise self._nexus_error(\"'BEGIN' found without completion of previous block\",\n                        NexusReader.IncompleteBlockError)\n            token = self._nexus_tokenizer.require_next_token_ucase()\n\n    def _parse_matrix_statement",
      "            elif token == 'BEGIN':\n                raise self._nexus_error(\"'BEGIN' found without completion of previous block\",\n                        NexusReader.IncompleteBlockError)\n            token = self._nexus_tokenizer.next_token_ucase()\n\n    def _parse_matrix_statement",
      "_parse_dimensions_statement: loop step no longer requires a token"),
+    ("C20", "dendropy/dataio/nexusyielder.py", "        if token is None or token.upper() != \"#NEXUS\":", "        if token.upper() != \"#NEXUS\":",
+     "NEXUS tree iterator: the first token of an empty source is used unchecked"),
+    # --- the tokenizer at character level (contracts/C20chars.py)
+    ("C20", "dendropy/dataio/tokenizer.py", "                dest.append(self._cur_char)\n            self._get_next_char()\n        if self.capture_comments:",
+     "                dest.append(self._cur_char)\n        if self.capture_comments:", "_handle_comment: the loop body no longer reads a character"),
+    ("C20", "dendropy/dataio/tokenizer.py", "                    self._handle_comment()\n                    if self._cur_char == \"\":\n                        break", "                    pass",
+     "__next__: a comment inside an unquoted token is not consumed"),
+    ("C20", "dendropy/dataio/tokenizer.py", "        while self._cur_char != \"\" and self._cur_char in self.uncaptured_delimiters:\n            self._get_next_char()",
+     "        while self._cur_char != \"\" and self._cur_char in self.uncaptured_delimiters:\n            pass", "_skip_to_significant_char: the loop does not read"),
     # --- the NEWICK recursive descent (contracts/C20newick.py)
     ("C20", "dendropy/dataio/newickreader.py",
      "                        ## node_created = True # do not flag node as created to allow for an extra node to be created in the event of (..,)\n                    nexus_tokenizer.require_next_token()\n",
